@@ -159,6 +159,14 @@ async def _scenario(loop: Any, hist: dict) -> dict:
                 pt["annotation_only_diff"] = pt["self_restore_same"] and live_only(pkts_a2, gwy_a) != live_only(pkts_a, gwy_a)
                 if not pt["self_restore_same"]:
                     pt["self_diff"] = (sorted(set(strip_own(pkts_a).items()) - set(strip_own(pkts_a2).items()))[:3], sorted(set(strip_own(pkts_a2).items()) - set(strip_own(pkts_a).items()))[:3])
+                # the empty snapshot (a gateway that has stored nothing yet, or whose every packet has expired) restores too: B keeps what it has
+                try:
+                    await gwy_b._restore_cached_packets({})
+                    await vclock.quiesce()
+                    _, pkts_b3 = gwy_b.get_state(include_expired=inc)
+                    pt["empty_restore_same"] = live_only(strip_own(pkts_b3), gwy_a) == live_only(strip_own(pkts_b2), gwy_a)
+                except Exception as e:  # noqa: BLE001
+                    pt["empty_restore_raised"] = f"{type(e).__name__} @ {site_of(e)}: {e}"[:200]
                 res["points"].append(pt)
                 await stack.stop_gateway(gwy_b)
                 gateways.remove(gwy_b)
@@ -214,6 +222,10 @@ def judge(hist: dict, res: dict) -> list[tuple[dict, str]]:
             add({"clause": "schema-differs-after-restore"}, f"at {at}: {pt['schemas'][0]} vs {pt['schemas'][1]}")
         if not pt["second_restore_same"]:
             add({"clause": "second-restore-changes-state"}, f"at {at}")
+        if "empty_restore_raised" in pt:
+            add({"clause": "empty-snapshot-not-restorable", "what": pt["empty_restore_raised"].split(":")[0]}, f"at {at}: {pt['empty_restore_raised']}")
+        elif pt.get("empty_restore_same") is False:
+            add({"clause": "empty-restore-changes-state"}, f"at {at}")
         if not pt["self_restore_same"]:
             sd = pt.get("self_diff") or ([], [])
             first = (sd[0] or sd[1] or [("", "")])[0][1]
